@@ -192,9 +192,10 @@ Inductive op :=
 | OEmitHold (kind : nat) (v : Z)   (* call the collector and keep the returned suspend point in a variable *)
 | ORelease                         (* the oldest kept suspend point is destroyed *)
 | OAwaitHeld                       (* the oldest kept suspend point is co_awaited (driver is a coroutine) *)
-| OHookUp (i limit : nat) (pause : bool) (retry : nat) (keep : bool)
+| OHookUp (i limit : nat) (pause : bool) (retry : nat) (keep : bool) (emits : nat)
     (* first op of a case only: listener i awaits signal<T>::hook_up(fn) (signal.h:324-386): the first await creates the
-       state, subscribes, passes a collector to fn, which keeps it as the driver's handle (keep) or drops it *)
+       state, subscribes, passes a collector to fn; fn calls it `emits` times (values 901, 902, ..: a generator that replays
+       to a new observer from inside the registration call) and keeps it as the driver's handle (keep) or drops it *)
 | OBad.
 
 (* observation of one op: status (0 ok / 1 rejected), size of the returned suspend point,
@@ -267,20 +268,31 @@ Definition step0 (s : st) (x : op) : st * obs :=
       | sp :: rest =>
           let '(s1, e) := dispose true sp (set_held s rest) in (s1, mkObs 0 0 0 (frees e) e)
       end
-  | OHookUp _ _ _ _ _ => (s, rejected)
+  | OHookUp _ _ _ _ _ _ => (s, rejected)
   | OBad => (s, rejected)
   end.
 
 (* hook_up_emitter::await_suspend (signal.h:331-339): `signal s; subscribe; fn(s.get_collector());` and then `s` dies.
-   With the collector kept this is the subscription of listener i to a state whose only handle is the driver's;
-   with the collector dropped the state dies at the end of await_suspend, with i already in the chain. *)
+   The coroutine is subscribed BEFORE the registration function runs, so what fn emits through the collector reaches it
+   (from ordinary code it is even resumed from inside its own await_suspend, re-awaits, and gets the next value too).
+   With the collector kept the state's only handle is then the driver's; with the collector dropped the state dies at
+   the end of await_suspend.  The transition is the composition of the single transitions spawn, emit x emits, (drop). *)
+Fixpoint run0 (s : st) (l : list op) : st * list obs :=
+  match l with
+  | [] => (s, [])
+  | x :: t => let '(s1, o) := step0 s x in let '(s2, os) := run0 s1 t in (s2, o :: os)
+  end.
+Fixpoint osum (f : obs -> Z) (l : list obs) : Z := match l with [] => 0 | o :: t => f o + osum f t end.
+Definition hook_tail (keep : bool) (emits : nat) : list op :=
+  map (fun j => OEmit 0 false (900 + Z.of_nat j)) (seq 1 emits) ++ (if keep then [] else [ODrop]).
+
 Definition step (s : st) (x : op) : st * obs :=
   match x with
-  | OHookUp i limit pause retry keep =>
+  | OHookUp i limit pause retry keep emits =>
       let '(s1, o1) := step0 s (OSpawn i limit pause retry) in
-      if keep || negb (o_st o1 =? 0) then (s1, o1) else
-      let '(s2, o2) := step0 s1 ODrop in
-      (s2, mkObs 0 0 0 (o_del o2) (o_ev o1 ++ o_ev o2))
+      if negb (o_st o1 =? 0) then (s1, o1) else
+      let '(s2, os) := run0 s1 (hook_tail keep emits) in
+      (s2, mkObs 0 0 (osum o_new (o1 :: os)) (osum o_del (o1 :: os)) (flat_map o_ev (o1 :: os)))
   | _ => step0 s x
   end.
 
@@ -315,7 +327,10 @@ Definition decode_first (l : list Z) : op :=
   match l with
   | [9; i; lim; p; r; k] =>
       if inr 0 63 i && inr 0 9 lim && inr 0 1 p && inr 0 3 r && inr 0 1 k
-      then OHookUp (Z.to_nat i) (Z.to_nat lim) (p =? 1) (Z.to_nat r) (k =? 1) else OBad
+      then OHookUp (Z.to_nat i) (Z.to_nat lim) (p =? 1) (Z.to_nat r) (k =? 1) 0 else OBad
+  | [9; i; lim; p; r; k; n] =>
+      if inr 0 63 i && inr 0 9 lim && inr 0 1 p && inr 0 3 r && inr 0 1 k && inr 0 3 n
+      then OHookUp (Z.to_nat i) (Z.to_nat lim) (p =? 1) (Z.to_nat r) (k =? 1) (Z.to_nat n) else OBad
   | _ => decode l
   end.
 Definition decode_all (ops : list (list Z)) : list op :=
@@ -519,8 +534,40 @@ Definition o_valid (o : ost) (x : op) : bool :=
   | OEmitHold kind _ => negb (negb alive || (os_void o && negb (Nat.eqb kind 0)) || Nat.ltb 2 kind)
   | ORelease => negb (Nat.eqb (os_held o) 0)
   | OAwaitHeld => os_coro o && negb (Nat.eqb (os_held o) 0)
-  | OHookUp _ _ _ _ _ => true        (* decode_all lets it through as the first op only *)
+  | OHookUp _ _ _ _ _ _ => true      (* decode_all lets it through as the first op only *)
   | OBad => false
+  end.
+
+(* the events of one collector call made from inside the registration function: its delivery (if any) and what the
+   listener logs before the next delivery (a cancel belongs to the disconnect that follows the calls) *)
+Definition is_deliv (e : ev) : bool := match e with ERecv _ _ | ECall _ _ => true | _ => false end.
+Definition is_cancel (e : ev) : bool := match e with ECancel _ _ => true | _ => false end.
+Fixpoint take_nondeliv (l : list ev) : list ev * list ev :=
+  match l with
+  | [] => ([], [])
+  | e :: t => if is_deliv e || is_cancel e then ([], l) else let '(a, b) := take_nondeliv t in (e :: a, b)
+  end.
+Definition take_seg (l : list ev) : list ev * list ev :=
+  match l with
+  | [] => ([], [])
+  | e :: t => if is_deliv e then let '(a, b) := take_nondeliv t in (e :: a, b) else take_nondeliv l
+  end.
+
+(* emissions 1..n from inside the registration function: each owes its value to whoever waits; from ordinary code the
+   delivery has happened before the next one *)
+Fixpoint o_hook_emits (n : nat) (j : nat) (o : ost) (evs : list ev) : option (ost * list ev) :=
+  match n with
+  | O => Some (o, evs)
+  | S n' =>
+      let w := if os_void o then 0 else 900 + Z.of_nat j in
+      let o1 := o_set o (os_strong o) (owe (os_lax o) (LOwed w) (os_tab o)) (os_pend o) in
+      let '(seg, rest) := take_seg evs in
+      match o_events o1 seg with
+      | None => None
+      | Some o2 =>
+          if os_coro o || (none_owed false (os_tab o2) && match os_pend o2 with None => true | Some _ => false end)
+          then o_hook_emits n' (S j) o2 rest else None
+      end
   end.
 
 (* one op with its observed line *)
@@ -597,7 +644,7 @@ Definition o_step (o : ost) (x : op) (line : list Z) : option ost :=
           | OAwaitHeld =>
               (* an empty suspend point does not suspend the driver: what is queued stays queued *)
               if (nw =? 0) && (ret =? 0) then finish (o_events (o_held o (Nat.pred (os_held o))) evs) false else None
-          | OHookUp i limit pause retry keep =>
+          | OHookUp i limit pause retry keep emits =>
               if negb ((nw =? 0) && (ret =? 0)) then None else
               match oget (os_tab o) i, evs with
               | None, e1 :: rest =>
@@ -605,8 +652,12 @@ Definition o_step (o : ost) (x : op) (line : list Z) : option ost :=
                   match o_event o1 e1 with
                   | None => None
                   | Some o2 =>
-                      if keep then match rest with [] => finish (Some o2) (negb (os_coro o)) | _ => None end
-                      else finish (o_events (o_set o2 0 (owe (os_lax o) LOwedC (os_tab o2)) (os_pend o2)) rest) (negb (os_coro o))
+                      match o_hook_emits emits 1 o2 rest with
+                      | None => None
+                      | Some (o3, rest3) =>
+                          if keep then match rest3 with [] => finish (Some o3) (negb (os_coro o)) | _ => None end
+                          else finish (o_events (o_set o3 0 (owe (os_lax o) LOwedC (os_tab o3)) (os_pend o3)) rest3) (negb (os_coro o))
+                      end
                   end
               | _, _ => None
               end
